@@ -134,14 +134,19 @@ def _task(repo, name, cfgs, seed, per_item, exe, deep, res):
                         if gen.method_stringy(m):
                             # every string-valued position of this method holds non-ASCII text (multi-byte UTF-8, astral)
                             reps += ["na%d" % i for i in range(1 if per_item == 1 else 2)]
+                            # ... and once more with a string from the EDGES of the domain in every such position (trailing / only / inner
+                            # U+0000, white space and control characters at the ends, BMP border characters, lengths at the borders of the
+                            # 16-bit prefix up to the longest encodable string, map keys differing only in their tail)
+                            reps += ["ed%d" % i for i in range(1 if per_item == 1 else 3)]
                         for rep in reps:
                             key = "%s:%s.%s:%r:%s" % (name, pname, m["name"], cfg, rep)
-                            gen.nonascii = isinstance(rep, str)
+                            gen.nonascii = isinstance(rep, str) and rep.startswith("na")
+                            gen.edge = isinstance(rep, str) and rep.startswith("ed")
                             try:
                                 args = [gen.gen(v["type"], cfg, 0, False) for v in m["request"]]
                                 rets = [gen.gen(v["type"], cfg, 0, len(m["response"]) == 1 and v["type"]["name"] != "anydata") for v in m["response"]]
                             finally:
-                                gen.nonascii = False
+                                gen.nonascii = False; gen.edge = False
                             doing.clear(); doing.update(op="call", protocol=pname, method=m["name"], cfg=list(cfg), minor_version=minor,
                                          args=_short(SV.vals(args), 4000), returns=_short(SV.vals(rets), 4000))
                             rec = {}
@@ -171,7 +176,8 @@ def _task(repo, name, cfgs, seed, per_item, exe, deep, res):
                             delattr(srv, m["name"])
                             checks.append(("rpc", key, len(lines), {"flow": flow, "cfg": cfg, "proto": pname, "method": m, "args": args, "rets": rets,
                                                                     "sargs": rec.get("args"), "result": result, "noresponse": p["noresponse"],
-                                                                    "nonascii": isinstance(rep, str)}))
+                                                                    "nonascii": isinstance(rep, str) and rep.startswith("na"),
+                                                                    "edge": isinstance(rep, str) and rep.startswith("ed")}))
                             lines.append("visreq %s %s %s" % (cs, mref, SV.vals(args)))
                             lines.append("visresp %s %s %s" % (cs, mref, SV.vals(rets)))
                             lines.append("req %s %s %s" % (cs, mref, SV.vals(args)))
@@ -204,9 +210,10 @@ def _task(repo, name, cfgs, seed, per_item, exe, deep, res):
         for s in env.versioned():
             sname = s["name"]
             if sname not in env.structs: continue
-            gen.nonascii = rng.random() < 0.3
+            x = rng.random()
+            gen.nonascii, gen.edge = x < 0.3, 0.3 <= x < 0.55
             try: tree = gen.obj(sname, cfg)
-            finally: gen.nonascii = False
+            finally: gen.nonascii = False; gen.edge = False
             doing.clear(); doing.update(op="forward-compat", struct=sname, cfg=[cfg[0], 1, cfg[2]], value=_short(SV.to_val(tree), 4000))
             rb = None
             try:
@@ -384,6 +391,7 @@ def _task(repo, name, cfgs, seed, per_item, exe, deep, res):
         rng.shuffle(burst)
         calls = burst + [rng.choice(ms)]            # the last one is made alone, after the burst
         gen.nonascii = gi % 3 == 2
+        gen.edge = gi % 3 == 1
         try:
             args = [[gen.gen(v["type"], cfg, 0, False) for v in m["request"]] for m in calls]
             rets = {}
@@ -391,7 +399,7 @@ def _task(repo, name, cfgs, seed, per_item, exe, deep, res):
                 rets.setdefault(m["name"], []).append(
                     [gen.gen(v["type"], cfg, 0, len(m["response"]) == 1 and v["type"]["name"] != "anydata") for v in m["response"]])
         finally:
-            gen.nonascii = False
+            gen.nonascii = False; gen.edge = False
         return calls, args, rets
 
     async def burst(cfg, p, gi):
@@ -596,6 +604,20 @@ def _task(repo, name, cfgs, seed, per_item, exe, deep, res):
             elif t[0] == "obj": n += count_na(t[2])
         return n
 
+    def count_edge(ts, out=None):
+        out = {} if out is None else out
+        for t in ts:
+            if t[0] in ("str", "url"):
+                if V14.is_edge(t[1]):
+                    c = ("url:" if t[0] == "url" else "") + V14.edge_class(t[1]); out[c] = out.get(c, 0) + 1
+            elif t[0] == "list": count_edge(t[1], out)
+            elif t[0] == "map":
+                count_edge([x for kv in t[1] for x in kv], out)
+                ks = [k[1] for k, _ in t[1] if k[0] == "str"]
+                if len(ks) > 1 and len({k.rstrip("\0 \n\uffff") for k in ks}) < len(ks): out["map-keys-differing-in-tail"] = out.get("map-keys-differing-in-tail", 0) + 1
+            elif t[0] == "obj": count_edge(t[2], out)
+        return out
+
     def conc_check(key, i0, pl):
         calls, n, nb = pl["calls"], len(pl["calls"]), pl["burst"]
         pname = pl["proto"]
@@ -732,6 +754,9 @@ def _task(repo, name, cfgs, seed, per_item, exe, deep, res):
             if pl["nonascii"]:
                 tag("rpc-nonascii-rep:" + pl["flow"].split(" ")[0])
                 tag("rpc-nonascii-rep:string-positions", count_na(pl["args"]) + count_na(pl["rets"]))
+            if pl.get("edge"):
+                tag("rpc-edge-rep:" + pl["flow"].split(" ")[0])
+                for cl, c in count_edge(pl["args"] + pl["rets"]).items(): tag("rpc-edge-rep:strings:" + cl, c)
             if pl["flow"] != "ok":
                 if msresp == "err Other" and mreq.startswith("ok") and pl["flow"] == "rmcerror PythonCore::Exception":
                     # the generated server's isinstance test rejects what the implementation returned
@@ -740,7 +765,7 @@ def _task(repo, name, cfgs, seed, per_item, exe, deep, res):
                          dict(base, vkey="result-type:anydata:" + cls))
                 else:
                     diff(key, "%s.%s(%s) returning %s failed on the real code (%s)%s; interpreter: request %s, response %s" % (
-                        pl["proto"], m["name"], _short(base["args"], 200), _short(base["returns"], 200), pl["flow"], " (non-ASCII text in every string position)" if pl["nonascii"] else "", mreq[:40], msresp[:40]), dict(base, vkey="rpc:%s:%s.%s" % (name, pl["proto"], m["name"])))
+                        pl["proto"], m["name"], _short(base["args"], 200), _short(base["returns"], 200), pl["flow"], " (non-ASCII text in every string position)" if pl["nonascii"] else (" (a string from the edges of the domain in every string position)" if pl.get("edge") else ""), mreq[:40], msresp[:40]), dict(base, vkey="rpc:%s:%s.%s" % (name, pl["proto"], m["name"])))
                 continue
             sargs = pl["sargs"]
             if sargs is None or len(sargs) != len(m["request"]):
@@ -749,7 +774,7 @@ def _task(repo, name, cfgs, seed, per_item, exe, deep, res):
             mask = SV.parse_val(mvreq[3:])
             got = "ok [" + "".join(" " + real.canon(v["type"], a, mk) for v, a, mk in zip(m["request"], sargs, mask)) + " ]"
             if got != mvreq:
-                diff(key, "%s.%s: arguments seen by the server implementation differ from those passed%s: %s" % (pl["proto"], m["name"], " (non-ASCII text in every string position)" if pl["nonascii"] else "", first_difference(mvreq, got)), dict(base, real=got[:4000], expected=mvreq[:4000], vkey="rpc:%s:%s.%s" % (name, pl["proto"], m["name"])))
+                diff(key, "%s.%s: arguments seen by the server implementation differ from those passed%s: %s" % (pl["proto"], m["name"], " (non-ASCII text in every string position)" if pl["nonascii"] else (" (a string from the edges of the domain in every string position)" if pl.get("edge") else ""), first_difference(mvreq, got)), dict(base, real=got[:4000], expected=mvreq[:4000], vkey="rpc:%s:%s.%s" % (name, pl["proto"], m["name"])))
                 continue
             if not pl["noresponse"]:
                 result = pl["result"]
@@ -759,7 +784,7 @@ def _task(repo, name, cfgs, seed, per_item, exe, deep, res):
                 mask = SV.parse_val(mvresp[3:])
                 got = "ok [" + "".join(" " + real.canon(v["type"], a, mk) for v, a, mk in zip(m["response"], vals, mask)) + " ]"
                 if got != mvresp or (not m["response"] and result is not None):
-                    diff(key, "%s.%s: values returned to the caller differ from those the implementation returned%s: %s" % (pl["proto"], m["name"], " (non-ASCII text in every string position)" if pl["nonascii"] else "", first_difference(mvresp, got)), dict(base, real=got[:4000], expected=mvresp[:4000], vkey="rpc:%s:%s.%s" % (name, pl["proto"], m["name"])))
+                    diff(key, "%s.%s: values returned to the caller differ from those the implementation returned%s: %s" % (pl["proto"], m["name"], " (non-ASCII text in every string position)" if pl["nonascii"] else (" (a string from the edges of the domain in every string position)" if pl.get("edge") else ""), first_difference(mvresp, got)), dict(base, real=got[:4000], expected=mvresp[:4000], vkey="rpc:%s:%s.%s" % (name, pl["proto"], m["name"])))
                     continue
             if len(res["samples"]) < 2 and 0 < len(mvreq) < 200:
                 res["samples"].append({"module": name, "method": pl["proto"] + "." + m["name"], "cfg": list(pl["cfg"]), "args": base["args"][:200], "returns": base["returns"][:200]})
